@@ -109,3 +109,18 @@ def is_plain(v):
     if k == "dict":
         return all((key is not ...) and is_plain(x) for key, x in v.items())
     return True
+
+
+def has_huge_int(v, depth=0):
+    """an int too large for CPython's int -> str conversion (sys.get_int_max_str_digits())"""
+    import sys
+    lim = sys.get_int_max_str_digits()
+    if isinstance(v, int) and not isinstance(v, bool):
+        return lim > 0 and abs(int(v)) >= 10 ** lim
+    if depth > 8:
+        return False
+    if isinstance(v, (list, tuple)):
+        return any(has_huge_int(x, depth + 1) for x in v)
+    if isinstance(v, dict):
+        return any(has_huge_int(k, depth + 1) or has_huge_int(x, depth + 1) for k, x in v.items())
+    return False
